@@ -195,6 +195,10 @@ def materialise_assembly(case):
         r %= n
         if opts["features"]:
             spec["features"] = _snap_features(rng, n, b["frag_start"], b["frag_len"], rid, rng.randint(0, 8), refs=nrefs, origin=r)
+        # own stream (the draws above stay what they were): the topology annotation as plasmid editors and parsers spell it
+        ra = gen.rng_for(case["seed"], "assembly-annotations", case["enzyme"], case["i"], idx)
+        if ra.random() < 0.4:
+            spec["annotations"] = {"topology": ra.choice(["circular", "Circular", "CIRCULAR"]), "molecule_type": "DNA"}
         spec = _rotate_spec(rng, spec, r)
         spec["built"] = {"rot_left": r, "frag_start_unrotated": b["frag_start"], "frag_len": b["frag_len"]}
         specs.append(spec)
